@@ -31,6 +31,7 @@ func init() {
 type Renaming struct {
 	Labels      map[string]string // print labels: old -> new
 	Collisions  int               // binders given a deliberately colliding spelling
+	AliasShadows int              // case payloads deliberately spelled like the provider alias
 	Permuted    bool
 	FuncsRen    int
 	TypesRen    int
@@ -48,6 +49,8 @@ type renamer struct {
 	fresh   int
 	tymemo  map[*Ty]*Ty
 	info    *Renaming
+	curProv string // explicit provider name (old spelling) of the definition being renamed
+	opts    RenameOpts
 }
 
 func (r *renamer) freshName() string {
@@ -84,7 +87,7 @@ func (r *renamer) ty(t *Ty) *Ty {
 // pick chooses the new spelling of a binder whose scope has the given forbidden spellings.
 func (r *renamer) pick(forbidden map[string]bool, siblings ...string) string {
 	bad := func(s string) bool {
-		if forbidden[s] || keywords[s] || s == "" {
+		if forbidden[s] || keywords[s] || s == "" || (len(s) > 4 && s[:4] == "exec") {
 			return true
 		}
 		for _, x := range siblings {
@@ -171,6 +174,8 @@ func (r *renamer) nm(env map[string]string, n string) string {
 	return n
 }
 
+func (r *renamer) isSelf(n string) bool { return n == "self" || (r.curProv != "" && n == r.curProv) }
+
 func (r *renamer) nmOpt(env map[string]string, n string) string {
 	if n == "" {
 		return ""
@@ -198,7 +203,7 @@ func (r *renamer) term(t Term, env map[string]string, res map[string]bool) Term 
 		nx := r.pick(f)
 		ny := r.pick(f, nx)
 		resK := res
-		if x.From == "self" {
+		if r.isSelf(x.From) {
 			resK = union(res, map[string]bool{ny: true})
 		}
 		return &Recv{X: nx, Y: ny, From: r.nm(env, x.From), XT: r.ty(x.XT), YT: r.ty(x.YT), K: r.term(x.K, with1(env, x.X, nx, x.Y, ny), resK)}
@@ -207,9 +212,22 @@ func (r *renamer) term(t Term, env map[string]string, res map[string]bool) Term 
 	case *Case:
 		n := &Case{From: r.nm(env, x.From)}
 		for _, b := range x.Brs {
-			np := r.pick(union(r.forbiddenIn(b.K, env, b.Payload), res))
+			np := ""
+			if r.opts.ShadowAlias && !r.isSelf(x.From) && len(res) > 0 && r.intn(2) == 1 {
+				f := r.forbiddenIn(b.K, env, b.Payload)
+				for _, a := range SortedKeys(res) {
+					if !f[a] && !keywords[a] {
+						np = a
+						r.info.AliasShadows++
+						break
+					}
+				}
+			}
+			if np == "" {
+				np = r.pick(union(r.forbiddenIn(b.K, env, b.Payload), res))
+			}
 			resK := res
-			if x.From == "self" {
+			if r.isSelf(x.From) {
 				resK = union(res, map[string]bool{np: true})
 			}
 			n.Brs = append(n.Brs, Branch{Label: r.br(b.Label), Payload: np, PT: r.ty(b.PT), K: r.term(b.K, with1(env, b.Payload, np), resK)})
@@ -260,7 +278,7 @@ func (r *renamer) term(t Term, env map[string]string, res map[string]bool) Term 
 	case *Shift:
 		nx := r.pick(union(r.forbiddenIn(x.K, env, x.X), res))
 		resK := res
-		if x.From == "self" {
+		if r.isSelf(x.From) {
 			resK = union(res, map[string]bool{nx: true})
 		}
 		return &Shift{X: nx, From: r.nm(env, x.From), XT: r.ty(x.XT), K: r.term(x.K, with1(env, x.X, nx), resK)}
@@ -297,11 +315,22 @@ func collectNames(t Term, out map[string]bool) {
 	}
 }
 
+// RenameOpts tunes Rename when it is used as a generator stage.
+type RenameOpts struct {
+	// ShadowAlias: the payload binder of a client-side case branch may be spelled like the name
+	// that currently aliases the provider (the real checker does not test branch payloads for
+	// freshness, so such programs are accepted; lexically the payload simply shadows the alias).
+	ShadowAlias bool
+}
+
 // Rename returns r(P) and the description of r.
-func Rename(p *Program, intn func(int) int) (*Program, *Renaming) {
+func Rename(p *Program, intn func(int) int, opts ...RenameOpts) (*Program, *Renaming) {
 	info := &Renaming{Labels: map[string]string{}}
 	r := &renamer{intn: intn, funcs: map[string]string{}, types: map[string]string{}, brs: map[string]string{}, plabels: map[string]string{},
 		tops: map[string]string{}, tymemo: map[*Ty]*Ty{}, info: info}
+	if len(opts) > 0 {
+		r.opts = opts[0]
+	}
 	// pool of spellings that exist somewhere in P: binders, parameters, top-level names
 	names := map[string]bool{}
 	for _, d := range p.Defs {
@@ -311,6 +340,9 @@ func Rename(p *Program, intn func(int) int) (*Program, *Renaming) {
 		collectNames(d.Body, names)
 	}
 	for _, q := range p.Procs {
+		if q.Exec != "" {
+			continue // the synthetic execN provider names are reserved
+		}
 		for _, n := range q.Names {
 			names[n] = true
 		}
@@ -423,6 +455,9 @@ func Rename(p *Program, intn func(int) int) (*Program, *Renaming) {
 	// top-level provider names: global, must stay pairwise distinct
 	usedTop := map[string]bool{}
 	for _, q := range p.Procs {
+		if q.Exec != "" {
+			continue
+		}
 		for _, n := range q.Names {
 			s := n
 			if intn(2) == 1 {
@@ -465,7 +500,9 @@ func Rename(p *Program, intn func(int) int) (*Program, *Renaming) {
 			nd.Prov = s
 			res[s] = true
 		}
+		r.curProv = d.Prov
 		nd.Body = r.term(d.Body, env, res)
+		r.curProv = ""
 		np.Defs = append(np.Defs, nd)
 	}
 	for _, q := range p.Procs {
